@@ -192,12 +192,12 @@ fn family_vq(args: &Args) -> i32 {
             }
         } else {
             let sizes: &[usize] = if thorough { &anyq::SIZES } else { &[1, 2, 4, 8, 16, 64, 256, 1024, 32768] };
-            let reps = if thorough { 4 } else { 1 };
+            let reps = if thorough { 2 } else { 1 };
             for _ in 0..reps {
                 for &n in sizes {
                     for flags in 0..8u32 {
                         seed += 1;
-                        let ops = if n <= 16 { 600 } else { 300 } * if thorough { 4 } else { 1 };
+                        let ops = if n <= 16 { 600 } else { 300 } * if thorough { 2 } else { 1 };
                         jobs.push(VqParams { n, indirect: flags & 1 != 0, event_idx: flags & 2 != 0, ap: flags & 4 != 0,
                                              legacy: (seed % 3) == 0, ops, seed, mode: mode.clone() });
                     }
